@@ -858,7 +858,31 @@ static Plan gen_plan(const string &cfg, uint64_t seed, long long index) {
                 if (nl > 6) nl = 6;
             }
             unsigned lw = (nl > 60000) ? 0 : longw;      // the file with > 2^16 lines is about counters, not about bytes
-            for (int l = 0; l < nl; l++) { Op lo = gen_line(w, lw); if (crlf_bias == 1) lo.t = 1; else if (crlf_bias == 2 && sim_below(&w, 2)) lo.t = 1; lines.push_back(lo); }
+            sim_rng sr = sim_derive(rs, 3000 + (uint64_t)iv * 500 + (uint64_t)fi);
+            for (int l = 0; l < nl; l++) {
+                Op lo = gen_line(w, lw); if (crlf_bias == 1) lo.t = 1; else if (crlf_bias == 2 && sim_below(&w, 2)) lo.t = 1; lines.push_back(lo);
+                // siblings: the next line is a near-twin of this one (whoever remembers the previous line - to skip duplicates, to
+                // reuse a verdict - meets lines that differ from it only in trailing blanks, a NUL, the terminator or one byte)
+                if (lo.s.size() < 4096 && sim_below(&sr, 7) == 0) {
+                    int n = 1 + (int)sim_below(&sr, 2);
+                    for (int k = 0; k < n; k++) {
+                        Op tw = lines.back();
+                        switch ((int)sim_below(&sr, 10)) {
+                        case 0: break;                                                              // exact duplicate
+                        case 1: tw.s += sim_below(&sr, 2) ? " " : "\t"; break;
+                        case 2: if (!tw.s.empty()) tw.s.back() = '\0'; break;                        // same length, NUL for the last byte
+                        case 3: if (!tw.s.empty()) tw.s.back() = sim_below(&sr, 2) ? ' ' : '\t'; break;
+                        case 4: tw.s += string(1, '\0'); break;
+                        case 5: if (tw.s.size() > 1) tw.s[tw.s.size() - 2] = sim_below(&sr, 2) ? ' ' : '\0'; break;
+                        case 6: tw.t = (tw.t + 1) % 2; break;                                         // other line terminator
+                        case 7: if (!tw.s.empty()) { size_t p2 = sim_below(&sr, tw.s.size()); tw.s[p2] = (char)(tw.s[p2] ^ 0x20); } break;
+                        case 8: tw.s = " " + tw.s; break;
+                        default: if (!tw.s.empty()) tw.s.pop_back(); break;
+                        }
+                        lines.push_back(tw);
+                    }
+                }
+            }
             if (!lines.empty() && sim_below(&w, 100) < 30) lines.back().t = 2;    // no final newline
             string data; vector<size_t> ends; vector<size_t> interesting;      // offsets where a chunk boundary is "interesting"
             for (auto &lo : lines) {
